@@ -114,13 +114,65 @@ theorem batchListLoop_groups {α : Type} : (fuel : Nat) → (fk : List (Bytes ×
         simp
       · simp [Grp.items, e2]
 
-theorem batchList_groups {α : Type} (p : Nat) (fk : List (Bytes × α)) :
-    ∃ gs : List (Grp α), cpBatchList p (fk.map (·.1)) = encGrps 97 101 gs ∧ grpItems gs = fk := by
+theorem pyBatchLoop_groups {α : Type} (c1 cn : UInt8) : (fuel : Nat) → (fk : List (Bytes × α)) → fk.length < fuel →
+    ∃ gs : List (Grp α), pyBatchLoop c1 cn fuel (fk.map (·.1)) = encGrps c1 cn gs ∧ grpItems gs = fk
+  | 0, _, h => by omega
+  | fuel + 1, fk, h => by
+    have htl : ((fk.map (·.1)).take batchSize).length = (fk.take batchSize).length := by simp
+    have htm : (fk.map (·.1)).take batchSize = (fk.take batchSize).map (·.1) := by rw [List.map_take]
+    -- the rest of the loop
+    have hrest : ∃ gs' : List (Grp α),
+        (if (fk.take batchSize).length < batchSize then [] else pyBatchLoop c1 cn fuel ((fk.map (·.1)).drop batchSize)) = encGrps c1 cn gs' ∧
+        grpItems gs' = fk.drop batchSize := by
+      by_cases hl : (fk.take batchSize).length < batchSize
+      · have : fk.drop batchSize = [] := by
+          apply List.drop_eq_nil_of_le
+          simp [List.length_take] at hl
+          omega
+        exact ⟨[], by rw [if_pos hl]; rfl, by simp [this]⟩
+      · simp only [hl, if_false]
+        have hlen : batchSize ≤ fk.length := by
+          simp [List.length_take] at hl; omega
+        obtain ⟨gs', e1, e2⟩ := pyBatchLoop_groups c1 cn fuel (fk.drop batchSize) (by simp [batchSize] at hlen ⊢; omega)
+        exact ⟨gs', by rw [← List.map_drop]; exact e1, e2⟩
+    obtain ⟨gs', er, ei⟩ := hrest
+    unfold pyBatchLoop
+    rw [htl, htm]
+    by_cases h1 : (fk.take batchSize).length > 1
+    · refine ⟨.multi (fk.take batchSize) :: gs', ?_, ?_⟩
+      · simp only [h1, if_true, encGrps_cons, encGrp, ← er]
+        try simp
+      · simp [Grp.items, ei]
+    · by_cases h2 : (fk.take batchSize).length = 1
+      · obtain ⟨x, hx⟩ : ∃ x, fk.take batchSize = [x] := by
+          match hc : fk.take batchSize, h2 with
+          | [x], _ => exact ⟨x, rfl⟩
+        refine ⟨.single x :: gs', ?_, ?_⟩
+        · simp only [h1, if_false, h2, if_true, encGrps_cons, encGrp, ← er, hx]
+          simp
+        · simp only [grpItems_cons, Grp.items, ei, ← hx]
+          exact List.take_append_drop _ _
+      · have h0 : fk.take batchSize = [] := List.length_eq_zero_iff.mp (by omega)
+        have hfk : fk = [] := by
+          cases fk with
+          | nil => rfl
+          | cons a t => simp [batchSize] at h0
+        subst hfk
+        refine ⟨gs', ?_, by simpa using ei⟩
+        simp only [h1, if_false, h2, List.nil_append, ← er]
+
+theorem batchList_groups {α : Type} (py : Bool) (p : Nat) (fk : List (Bytes × α)) :
+    ∃ gs : List (Grp α), cpBatchList py p (fk.map (·.1)) = encGrps 97 101 gs ∧ grpItems gs = fk := by
   unfold cpBatchList
   by_cases hp : p = 0
   · simp only [hp, if_true]
     exact ⟨fk.map Grp.single, (singles_groups 97 101 fk).1, (singles_groups 97 101 fk).2⟩
   · simp only [hp, if_false]
+    cases py
+    case true =>
+      simp only [if_true, List.length_map]
+      exact pyBatchLoop_groups 97 101 (fk.length + 1) fk (Nat.lt_succ_self _)
+    simp only [Bool.false_eq_true, if_false]
     match fk with
     | [] => exact ⟨[], rfl, rfl⟩
     | [x] => exact ⟨[.single x], by simp [encGrp], by simp [Grp.items]⟩
@@ -143,13 +195,18 @@ theorem batchDictLoop_groups {α : Type} : (fuel : Nat) → (fk : List (Bytes ×
       simp only [cpBatchDictLoop, List.length_map, hl, if_false, encGrps_cons, encGrp, ← List.map_take, ht]
       simp
 
-theorem batchDict_groups {α : Type} (p : Nat) (fk : List (Bytes × α)) :
-    ∃ gs : List (Grp α), cpBatchDict p (fk.map (·.1)) = encGrps 115 117 gs ∧ grpItems gs = fk := by
+theorem batchDict_groups {α : Type} (py : Bool) (p : Nat) (fk : List (Bytes × α)) :
+    ∃ gs : List (Grp α), cpBatchDict py p (fk.map (·.1)) = encGrps 115 117 gs ∧ grpItems gs = fk := by
   unfold cpBatchDict
   by_cases hp : p = 0
   · simp only [hp, if_true]
     exact ⟨fk.map Grp.single, (singles_groups 115 117 fk).1, (singles_groups 115 117 fk).2⟩
   · simp only [hp, if_false]
+    cases py
+    case true =>
+      simp only [if_true, List.length_map]
+      exact pyBatchLoop_groups 115 117 (fk.length + 1) fk (Nat.lt_succ_self _)
+    simp only [Bool.false_eq_true, if_false]
     match fk with
     | [] => exact ⟨[], rfl, rfl⟩
     | [x] => exact ⟨[.single x], by simp [encGrp], by simp [Grp.items]⟩
